@@ -27,7 +27,7 @@ AtomName(i) == <<"a1", "a2", "a3", "a4", "a5", "a6">>[i]
 
 I == INSTANCE SolverIdeal WITH Atoms <- AtomToks
 M == INSTANCE SolverMachine WITH
-        Atoms <- AtomToks, BadAtoms <- {}, Lenient <- FALSE,
+        Atoms <- AtomToks, BadAtoms <- {}, Lenient <- FALSE, PyEq <- FALSE,
         OpTable <- {"(", "*", "/"},
         Steps <- << [ops |-> {"(", "f1(", "f2("}, otype |-> "ARGS"],
                     [ops |-> {"+", "-"},          otype |-> "UNARY"],
